@@ -14,7 +14,8 @@ expression tokens (Polish notation, fixed arity):
 Answer:  model=<result> spec=<result> k=<0|1> u=<0|1> lazy=<result> errs=<codes|_>
          (k, u: triggers of the findings F08b, F08u; lazy / errs: the permitted outcomes, Spec.Permitted)
 result = `_` (empty) | atoms joined by `,` | ERR:<code>.
-Kernel probes:  lex=<hex|-> → the xs:double of a lexical form or ERR:FORG0001;  rnd=<n>/<d> → the double nearest to n/d;  sig28=<n>/<d> → n/d at 28 significant digits.
+Optional field coll=ci: the default collation is html-ascii-case-insensitive.
+Kernel probes:  ckey=<hex|->,<hex|-> → string eq / lt under html-ascii-case-insensitive;  lex=<hex|-> → the xs:double of a lexical form or ERR:FORG0001;  rnd=<n>/<d> → the double nearest to n/d;  sig28=<n>/<d> → n/d at 28 significant digits.
 -/
 import EPV.Proto
 import EPV.Spec.FOSeqLazy
@@ -214,6 +215,13 @@ def answer (line : String) : String :=
     match parseStr (if field fs "lex" == "-" then "" else field fs "lex") with
     | some str => (match lexDouble str with | some d => showD d | none => "ERR:FORG0001")
     | none => "bad-lex"
+  else if (field fs "ckey") != "" then
+    -- collation probe: ckey=<hex|->,<hex|-> → `eq` and `lt` of the two strings under html-ascii-case-insensitive
+    match (field fs "ckey").splitOn "," with
+    | [a, b] => match parseStr (if a == "-" then "" else a), parseStr (if b == "-" then "" else b) with
+      | some x, some y => s!"ceq={if collEq .asciiCI x y then 1 else 0} clt={if collLt .asciiCI x y then 1 else 0}"
+      | _, _ => "bad-ckey"
+    | _ => "bad-ckey"
   else if (field fs "sig28") != "" then
     match (field fs "sig28").splitOn "/" with
     | [n, d] => match int? n, nat? d with
@@ -229,7 +237,9 @@ def answer (line : String) : String :=
     match (if itemS == "-" then some none else (parseAtom itemS).map some) with
     | none => "bad-item"
     | some item =>
-      let c : Ctx := { item := item, pos := pos, size := size, vars := vars, doc := doc }
+      -- default collation of the static context: coll=ci (html-ascii-case-insensitive), absent = code points
+      let c : Ctx := { item := item, pos := pos, size := size, vars := vars, doc := doc,
+                       coll := if field fs "coll" == "ci" then .asciiCI else .codepoint }
       let m := parseEval e c
       let s := Spec.sem Spec.foSum e c
       -- trigger of finding F08u: a top-level fn:sum over a node with a non-numeric string value
